@@ -83,3 +83,26 @@ def shift_dump(line, k, doc=None):
         tail = CALL_RE.sub(lambda c: "%s@%d:%d" % (c.group(1), int(c.group(2)) + k, int(c.group(3)) + k), tail)
         line = head + "calls=[" + tail
     return line
+
+
+def tail_independence(rep, cfg, docs, tails, mode="san", base=None, lines=None):
+    """`edn_read(input, length)` must not look at the bytes after `length`: the same documents are read again with
+    each of `tails` placed directly after them in memory (harness placement 2); any difference is a finding.
+    Returns True when a difference was found."""
+    from .. import corr as K
+    lines = lines or K.read_lines(docs)
+    if base is None:
+        base, _ = K.run_impl(cfg, lines, mode=mode)
+    found = False
+    for tail in tails:
+        outs, _ = K.run_impl(cfg, lines, mode=mode, prefix=["P 2 %s" % C.hexs(tail)])
+        rep.count("bytes-after-the-input/%s-%s" % (cfg, mode), len(docs))
+        n = 0
+        for i, (a, b) in enumerate(zip(base, outs)):
+            if a is not None and b is not None and a != b:
+                found = True
+                n += 1
+                if n <= 2:
+                    rep.finding("bytes-after-the-input", "the result of edn_read(input, length) depends on the bytes after the input: %r followed by %r" % (docs[i][:60], tail[:20]),
+                                {"kind": "read", "config": cfg, "mode": mode, "input_hex": C.hexs(docs[i]), "tail_hex": C.hexs(tail), "expected": a, "observed": b})
+    return found
